@@ -1,11 +1,452 @@
 package main
 
 import (
+	"encoding/json"
+	"flag"
 	"fmt"
-
-	_ "golang.org/x/tools/go/packages"
-	_ "golang.org/x/tools/go/ssa"
-	_ "golang.org/x/tools/go/ssa/ssautil"
+	"os"
+	"path/filepath"
+	"sort"
+	"strconv"
+	"strings"
+	"sync"
+	"time"
 )
 
-func main() { fmt.Println("govc") }
+type PropConfig struct {
+	Packages      []string `json:"packages"`
+	ContractFiles []string `json:"contract_files"`
+	Units         []string `json:"units"`
+	NotDecided    []string `json:"not_decided"`
+	Assumptions   []string `json:"assumptions"`
+	Bounded       []string `json:"bounded"`
+}
+
+type KnownFinding struct {
+	Property   string `json:"property"`
+	Obligation string `json:"obligation"`
+	Status     string `json:"status"` // open | fixed
+	What       string `json:"what"`
+	Witness    string `json:"witness,omitempty"`
+	Commit     string `json:"commit,omitempty"`
+}
+
+var verifRoot = "/verif"
+
+func main() {
+	if len(os.Args) < 2 {
+		fmt.Fprintln(os.Stderr, "usage: govc check|list ...")
+		os.Exit(2)
+	}
+	switch os.Args[1] {
+	case "check":
+		os.Exit(cmdCheck(os.Args[2:]))
+	default:
+		fmt.Fprintln(os.Stderr, "unknown command")
+		os.Exit(2)
+	}
+}
+
+func readJSON(path string, v any) error {
+	data, err := os.ReadFile(path)
+	if err != nil {
+		return err
+	}
+	return json.Unmarshal(data, v)
+}
+
+func cmdCheck(args []string) int {
+	fs := flag.NewFlagSet("check", flag.ExitOnError)
+	prop := fs.String("prop", "", "property id")
+	tier := fs.String("tier", "quick", "quick|thorough")
+	repo := fs.String("repo", "/repo", "repository root")
+	all := fs.Bool("all", false, "solve every generated obligation, not only claimed ones")
+	update := fs.Bool("update-claimed", false, "rewrite the claimed list of this property from obligations discharged fast")
+	only := fs.String("only", "", "substring filter on obligation names (debug)")
+	verbose := fs.Bool("v", false, "verbose")
+	noEvidence := fs.Bool("no-evidence", false, "do not write the evidence file")
+	replayFile := fs.String("replay", "", "re-run the replay recorded in this file")
+	fs.Parse(args)
+	if v := os.Getenv("VERIF_TIER"); v != "" && *tier == "" {
+		*tier = v
+	}
+	if v := os.Getenv("VERIF_ROOT"); v != "" {
+		verifRoot = v
+	}
+	seed := 0
+	if v := os.Getenv("VERIF_SEED"); v != "" {
+		seed, _ = strconv.Atoi(v)
+	}
+	if *replayFile != "" {
+		return cmdReplay(*replayFile, *repo)
+	}
+	t0 := time.Now()
+	var cfgs map[string]*PropConfig
+	if err := readJSON(filepath.Join(verifRoot, "contracts", "props.json"), &cfgs); err != nil {
+		fmt.Fprintln(os.Stderr, "props.json:", err)
+		return 2
+	}
+	cfg := cfgs[*prop]
+	if cfg == nil {
+		fmt.Fprintln(os.Stderr, "unknown property", *prop)
+		return 2
+	}
+	claimedAll := map[string][]string{}
+	readJSON(filepath.Join(verifRoot, "contracts", "claimed.json"), &claimedAll)
+	claimed := map[string]bool{}
+	for _, n := range claimedAll[*prop] {
+		claimed[n] = true
+	}
+	var known struct {
+		Findings []KnownFinding `json:"findings"`
+	}
+	readJSON(filepath.Join(verifRoot, "known_findings.json"), &known)
+
+	var extra []string
+	for _, f := range cfg.ContractFiles {
+		if !filepath.IsAbs(f) {
+			f = filepath.Join(verifRoot, f)
+		}
+		extra = append(extra, f)
+	}
+	tl := time.Now()
+	eng, err := loadEngine(*repo, cfg.Packages, extra)
+	if err != nil {
+		// a tree that does not load is reported as failure of every claimed obligation
+		fmt.Println("LOAD ERROR:", err)
+		rp := writeReplay(*prop, "load-error", map[string]any{"obligation": "load", "reason": err.Error()})
+		fmt.Printf("VIOLATION property=%s replay=%s no-failing-input-found\n", *prop, rp)
+		return 1
+	}
+	eng.loadSecs = time.Since(tl).Seconds()
+
+	// generate
+	var units []*Unit
+	tg := time.Now()
+	for _, key := range cfg.Units {
+		if strings.HasPrefix(key, "lemma:") {
+			lm := eng.cs.Lemmas[strings.TrimPrefix(key, "lemma:")]
+			if lm == nil {
+				u := newUnit(eng, nil, nil, key)
+				u.errorf("lemma %s not found in contract files", key)
+				units = append(units, u)
+				continue
+			}
+			units = append(units, eng.verifyLemma(lm))
+			continue
+		}
+		fc := eng.cs.Funcs[key]
+		if fc == nil {
+			u := newUnit(eng, nil, nil, key)
+			u.errorf("contract %s not found in contract files", key)
+			units = append(units, u)
+			continue
+		}
+		if fc.Extern || fc.Trusted {
+			continue
+		}
+		units = append(units, eng.verifyFunc(fc, nil))
+	}
+	genSecs := time.Since(tg).Seconds()
+
+	var obls []*Obligation
+	generated := map[string]*Obligation{}
+	unitErr := map[string]string{}
+	for _, u := range units {
+		if len(u.errs) > 0 {
+			unitErr[u.name] = unitErrors(u)
+			fmt.Printf("UNIT %s: generation errors: %s\n", u.name, unitErrors(u))
+		}
+		for _, o := range u.obls {
+			if _, dup := generated[o.Name]; dup {
+				o.Name += "'"
+			}
+			generated[o.Name] = o
+			obls = append(obls, o)
+		}
+	}
+	// which to solve
+	var todo []*Obligation
+	for _, o := range obls {
+		if *only != "" && !strings.Contains(o.Name, *only) {
+			continue
+		}
+		if *all || *update || claimed[o.Name] || o.Canary {
+			todo = append(todo, o)
+		}
+	}
+	timeout := 20
+	if *tier == "thorough" {
+		timeout = 120
+	}
+	outDir := filepath.Join(verifRoot, "out", "vc", *prop)
+	os.RemoveAll(outDir)
+	ts := time.Now()
+	var wg sync.WaitGroup
+	sem := make(chan struct{}, 8)
+	for _, o := range todo {
+		wg.Add(1)
+		go func(o *Obligation) {
+			defer wg.Done()
+			sem <- struct{}{}
+			defer func() { <-sem }()
+			to := timeout
+			if o.Canary && to > 6 {
+				to = 6
+			}
+			solveObligation(o, outDir, to, seed, *tier == "thorough" && !o.Canary)
+		}(o)
+	}
+	wg.Wait()
+	solveSecs := time.Since(ts).Seconds()
+
+	// verdicts
+	type failure struct {
+		name, reason string
+		o            *Obligation
+	}
+	var failures []failure
+	discharged := 0
+	nClaimed := 0
+	bySolver := map[string]int{}
+	bySolverSecs := map[string]float64{}
+	canaries, canaryOK := 0, 0
+	var attempted []string
+	for _, o := range todo {
+		if o.Canary {
+			canaries++
+			if o.Result == "unsat" {
+				failures = append(failures, failure{o.Name, "vacuous: assumptions are contradictory (canary is unsat)", o})
+			} else if o.Result == "sat" {
+				canaryOK++
+			}
+			continue
+		}
+		if !claimed[o.Name] {
+			attempted = append(attempted, fmt.Sprintf("%s: %s (%s, %.2fs)", o.Name, o.Result, o.Solver, o.Secs))
+			continue
+		}
+	}
+	var claimedNames []string
+	for n := range claimed {
+		claimedNames = append(claimedNames, n)
+	}
+	sort.Strings(claimedNames)
+	for _, n := range claimedNames {
+		if *only != "" && !strings.Contains(n, *only) {
+			continue
+		}
+		nClaimed++
+		o := generated[n]
+		if o == nil {
+			// which unit?
+			reason := "claimed obligation was not generated from the current source"
+			for un, e := range unitErr {
+				if strings.HasPrefix(n, un+"/") {
+					reason += ": " + e
+				}
+			}
+			failures = append(failures, failure{n, reason, nil})
+			continue
+		}
+		uname := o.unit.name
+		if e, bad := unitErr[uname]; bad {
+			failures = append(failures, failure{n, "unit has generation errors: " + e, o})
+			continue
+		}
+		if o.Result == "unsat" {
+			discharged++
+			bySolver[o.Solver]++
+			bySolverSecs[o.Solver] += o.Secs
+		} else {
+			failures = append(failures, failure{n, "solver result: " + o.Result, o})
+		}
+	}
+	if *verbose || *all || *update {
+		sort.Slice(todo, func(i, j int) bool { return todo[i].Name < todo[j].Name })
+		for _, o := range todo {
+			mark := " "
+			if claimed[o.Name] {
+				mark = "*"
+			}
+			fmt.Printf("%s %-90s %-8s %-7s %6.2fs\n", mark, o.Name, o.Result, o.Solver, o.Secs)
+		}
+	}
+	if *update {
+		var names []string
+		for _, o := range todo {
+			if o.Canary {
+				continue
+			}
+			if o.Result == "unsat" && o.Secs < 2.5 && unitErr[o.unit.name] == "" {
+				names = append(names, o.Name)
+			}
+		}
+		sort.Strings(names)
+		claimedAll[*prop] = names
+		data, _ := json.MarshalIndent(claimedAll, "", " ")
+		os.WriteFile(filepath.Join(verifRoot, "contracts", "claimed.json"), append(data, '\n'), 0o644)
+		fmt.Printf("claimed.json: %d obligations for %s\n", len(names), *prop)
+		return 0
+	}
+
+	// known findings / violations
+	exit := 0
+	violations := 0
+	openKnown := map[string]KnownFinding{}
+	for _, k := range known.Findings {
+		if k.Property == *prop && k.Status == "open" {
+			openKnown[k.Obligation] = k
+		}
+	}
+	for _, fl := range failures {
+		if k, ok := openKnown[fl.name]; ok && fl.o != nil && fl.o.Result == "sat" {
+			fmt.Printf("KNOWN-FINDING: property=%s %s %s\n", *prop, fl.name, k.What)
+			continue
+		}
+		violations++
+		exit = 1
+		info := map[string]any{"property": *prop, "obligation": fl.name, "reason": fl.reason}
+		reproduced := false
+		if fl.o != nil {
+			info["clause"] = fl.o.Clause
+			info["position"] = fl.o.Pos
+			info["kind"] = fl.o.Kind
+			info["solver"] = fl.o.Solver
+			info["result"] = fl.o.Result
+			info["solver_output"] = truncate(fl.o.Output, 6000)
+			info["smt_file"] = fl.o.File
+			if fl.o.Result == "sat" {
+				reproduced = tryReplay(eng, fl.o, info, *repo)
+			}
+		}
+		rp := writeReplay(*prop, fl.name, info)
+		if reproduced {
+			fmt.Printf("VIOLATION property=%s replay=%s\n", *prop, rp)
+		} else {
+			fmt.Printf("VIOLATION property=%s replay=%s no-failing-input-found\n", *prop, rp)
+		}
+		fmt.Printf("  obligation %s: %s\n", fl.name, fl.reason)
+	}
+
+	// evidence
+	wall := time.Since(t0).Seconds()
+	if !*noEvidence && *only == "" {
+		var fns []string
+		externs := map[string]bool{}
+		havocked := map[string]bool{}
+		inlinedFns := map[string]bool{}
+		var assumes []string
+		for _, u := range units {
+			fns = append(fns, u.name)
+			for e := range u.usedExterns {
+				externs[e] = true
+			}
+			for h := range u.havocked {
+				havocked[h] = true
+			}
+			for h := range u.inlined {
+				if !strings.HasPrefix(h, "ax:") {
+					inlinedFns[h] = true
+				}
+			}
+			assumes = append(assumes, u.usedAssumes...)
+		}
+		var samples []any
+		cnt := 0
+		for _, n := range claimedNames {
+			o := generated[n]
+			if o == nil || cnt >= 3 {
+				continue
+			}
+			if o.Kind == "ensures" || o.Kind == "inv-preserved" || o.Kind == "lemma" || cnt < 1 {
+				samples = append(samples, map[string]any{"obligation": o.Name, "kind": o.Kind, "clause": o.Clause, "position": o.Pos, "smt_file": o.File, "result": o.Result, "solver": o.Solver, "secs": round2(o.Secs)})
+				cnt++
+			}
+		}
+		var slowest []any
+		sorted := append([]*Obligation{}, todo...)
+		sort.Slice(sorted, func(i, j int) bool { return sorted[i].Secs > sorted[j].Secs })
+		for i := 0; i < len(sorted) && i < 5; i++ {
+			slowest = append(slowest, map[string]any{"obligation": sorted[i].Name, "secs": round2(sorted[i].Secs), "solver": sorted[i].Solver})
+		}
+		solverSecs := map[string]float64{}
+		for k, v := range bySolverSecs {
+			solverSecs[k] = round2(v)
+		}
+		trusted := []string{
+			"T-ssa: go/packages + go/types + go/ssa (x/tools v0.29.0) translate /repo's working tree faithfully",
+			"T-enc: govc's encoding of Go semantics into SMT (bit-vector integers, array heap, slices as (base,off,len,cap), len/cap <= 2^48)",
+			"solvers: z3 5.1.0 (z3-new), z3 4.8.12, cvc5 1.0",
+			"A-seq: every function is verified with sequential semantics",
+		}
+		assumptions := append([]string{}, cfg.Assumptions...)
+		for _, e := range sortedKeys(externs) {
+			assumptions = append(assumptions, "assumed (extern) contract: "+e)
+		}
+		for _, h := range sortedKeys(havocked) {
+			assumptions = append(assumptions, "call without contract, results havocked (A-ext-frame for its writes): "+h)
+		}
+		assumptions = append(assumptions, assumes...)
+		ev := map[string]any{
+			"property_id": *prop,
+			"tier":        *tier,
+			"seed":        seed,
+			"level":       "proof",
+			"coverage": map[string]any{
+				"obligations":              nClaimed,
+				"discharged":               discharged,
+				"checker_cmd":              fmt.Sprintf("bin/check %s --tier %s", *prop, *tier),
+				"trusted_base":             trusted,
+				"functions_under_contract": fns,
+				"generated_obligations":    len(obls),
+				"by_solver":                bySolver,
+				"solver_secs":              solverSecs,
+				"canaries":                 map[string]int{"checked": canaries, "reachable": canaryOK},
+				"slowest":                  slowest,
+				"samples":                  samples,
+				"attempted_not_claimed":    attempted,
+				"bounded_obligations":      cfg.Bounded,
+				"inlined_callees":          sortedKeys(inlinedFns),
+				"not_decided":              cfg.NotDecided,
+				"load_s":                   round2(eng.loadSecs),
+				"generate_s":               round2(genSecs),
+				"solve_s":                  round2(solveSecs),
+				"integer_semantics":        "64/32/16/8-bit two's complement bit-vectors (exact machine arithmetic)",
+			},
+			"assumptions": assumptions,
+			"wall_s":      round2(wall),
+			"violations":  violations,
+		}
+		os.MkdirAll(filepath.Join(verifRoot, "evidence"), 0o755)
+		data, _ := json.MarshalIndent(ev, "", " ")
+		os.WriteFile(filepath.Join(verifRoot, "evidence", *prop+".json"), append(data, '\n'), 0o644)
+	}
+	fmt.Printf("%s: %d/%d claimed obligations discharged, %d generated, %d canaries reachable of %d, load %.1fs gen %.1fs solve %.1fs\n",
+		*prop, discharged, nClaimed, len(obls), canaryOK, canaries, eng.loadSecs, genSecs, solveSecs)
+	if nClaimed == 0 {
+		fmt.Println("no claimed obligations: nothing is proved")
+		if exit == 0 && !*all {
+			return 1
+		}
+	}
+	return exit
+}
+
+func round2(f float64) float64 { return float64(int(f*100+0.5)) / 100 }
+
+func truncate(s string, n int) string {
+	if len(s) > n {
+		return s[:n] + "...[truncated]"
+	}
+	return s
+}
+
+func writeReplay(prop, name string, info map[string]any) string {
+	dir := filepath.Join(verifRoot, "out", "replay", prop)
+	os.MkdirAll(dir, 0o755)
+	p := filepath.Join(dir, sanitizeFile(name)+".json")
+	data, _ := json.MarshalIndent(info, "", " ")
+	os.WriteFile(p, append(data, '\n'), 0o644)
+	return p
+}
